@@ -204,7 +204,7 @@ def gen_limit_case(rng):
     z = []
     dnsterm = lambda: rng.choice(['a', 'mx', 'a:b.example', 'exists:e.example', 'ptr', 'mx:c.example', '?a', '-mx'])
     other = lambda: rng.choice(['ip4:10.9.8.7', 'ip6:2001:db8:ffff::1', 'foo=bar', 'ip4:10.0.0.0/8'])
-    shape = rng.choice(['flat', 'nest', 'chain', 'cycle', 'tree', 'tail'])
+    shape = rng.choice(['flat', 'nest', 'chain', 'cycle', 'wrap', 'wrap', 'tree', 'tail'])
     final = rng.choice(['-all', '+all', '?all', '~all', '', 'ip4:' + (iptext(client) if v4 else '1.2.3.4'), 'ip6:' + (iptext(client) if not v4 else '::1')])
     if shape == 'flat':
         n = rng.choice([8, 9, 10, 10, 11, 11, 12, 13])
@@ -231,6 +231,18 @@ def gen_limit_case(rng):
             nxt = names[(i + 1) % k]
             z.append(txt(names[i], 'v=spf1 ' + rng.choice(['include:%s', 'redirect=%s', 'a include:%s -all', 'include:%s include:%s -all', 'redirect=%s include:%s',
                                                             '?include:%s redirect=%s exp=x.a.example']).replace('%s', nxt)))
+    elif shape == 'wrap':
+        # a loop (a record redirecting to / including itself, or a ring of 2..3) that is reached through an include or a
+        # redirect of the record asked for, with terms behind the include: running into the limit inside the loop must end the
+        # whole evaluation, it must not read as "the included record did not match"
+        k = rng.choice([1, 1, 2, 3])
+        ring = names[1:1 + k]
+        for i in range(k):
+            nxt = ring[(i + 1) % k]
+            z.append(txt(ring[i], 'v=spf1 ' + rng.choice(['redirect=%s', 'redirect=%s', 'include:%s', 'include:%s -all', 'a redirect=%s', '?include:%s redirect=%s']).replace('%s', nxt)))
+        pre = [rng.choice([dnsterm(), other()]) for _ in range(rng.choice([0, 0, 1]))]
+        how = rng.choice(['include:%s', 'include:%s', '?include:%s', '-include:%s', 'redirect=%s'])
+        z.append(txt(names[0], 'v=spf1 ' + ' '.join(pre + [how % ring[0]] + ([final] if final else []))))
     elif shape == 'tree':
         # every level includes an empty record and ends in a redirect: the shape that defeated the old counter
         depth = rng.choice([4, 9, 10, 11])
